@@ -4,16 +4,22 @@ import os
 
 META = {
     'category': 'proof',
-    'text': ('Coq theorems over an executable model of eligible/aggregate/classify (grouping = at most one new group per '
-             'candidate and none when it shares an actor or evidence id; insufficient iff nobody engaged; rejected needs '
-             'decisive opposition; score in [0,1], monotone, symmetric over exact rationals; the binary64 score is a '
-             'function of the multiset because the fold runs over the sorted maxima), generated facts re-extracted from '
-             'the source on every run, and a bit-exact correspondence run of model vs implementation.'),
+    'text': ('Coq theorems over an executable model of eligible/aggregate/classify/project (the groups of the merge loop '
+             'are exactly the connected components of "shares an actor or evidence id", pairwise disjoint, each with '
+             'the maximum of its members; group count, multiset of maxima, scores and classification are invariant '
+             'under permutation of the recording order; ineligible rows contribute only to the excluded ledger; '
+             'silence is insufficient; rejected needs an opposing group; at most one new group per candidate and none '
+             'when it shares a key; score in [0,1], monotone, symmetric over exact rationals; the binary64 score is a '
+             'function of the multiset because the fold runs over the sorted maxima), generated facts re-extracted '
+             'from the source on every run, a bit-exact correspondence run of model vs the private aggregate/classify, '
+             'and an end-to-end run (real Nexus, KML writes in several recording orders, KQL BELIEF queries with FOR '
+             'TIME / WITH EPISTEMIC) compared across orders, with an independent oracle and with the model project.'),
     'design_ref': 'DESIGN.md section 4 / C20',
     'note': ('Trusted: Coq kernel + vm_compute on primitive floats; translator; harness + hook '
-             'projection::verif; IEEE facts about f64::total_cmp (premises). Rows are supplied decoded; the KQL glue '
-             'around project_belief is exercised by the end-to-end part only.'),
-    'technique': 'Coq proof (induction over group lists, canonical sorted form) + translator-generated facts + differential model/impl run',
+             'projection::verif; IEEE facts about f64::total_cmp (premises). In the end-to-end part the rows given to '
+             'the model are reconstructed by the harness from what it wrote through KML (ids from the MUTATE handles, '
+             'timestamps in stored form), not read back from the store.'),
+    'technique': 'Coq proof (loop invariant = partition into connected components, bijection between partitions, canonical sorted form) + translator-generated facts + differential model/impl runs (pure stages and end-to-end)',
 }
 
 IMPORTS = 'From Verif Require Import Belief.Model Belief.Run.'
@@ -24,11 +30,22 @@ def run(ck):
     ck.rule = ('candidate multisets over 3 actors x 3 evidence ids: every ordered sequence of grouping shapes '
                '(actor x evidence subset) up to length 3 (quick) / 4 (thorough), plus random multisets of 1..12 '
                'candidates with all permutations for <=5; thresholds from a fixed set and random; non-trivial = a '
-               'distinct model-compared case with >=2 candidates on one side')
-    ck.translate()
+               'distinct model-compared case with >=2 candidates on one side; end-to-end: random scenarios of 2..7 '
+               'assertions over a target and 0..2 rival propositions (3 actors + unattributed, 3 evidence ids, 6 modes + '
+               'an unknown mode, confidences incl. unstated, validity windows around the evaluation instants, '
+               'retracted/superseded), 3-4 recording orders x 6 query variants each')
+    ck.translate(only=['gen_policy'])
     ck.coq(['Belief/Props.v'], ['Belief', 'gen'], model_targets=['Belief/Run.vo'])
     ck.trust('IEEE-754: f64::total_cmp is an antisymmetric, transitive total order on bit patterns '
              '(premises of C20_sorted_fold_order_independent)')
+    ck.trust('order premises of C20_groups_are_components / C20_aggregate_perm / C20_aggregate_order_independent: the group '
+             'confidence operation is the max of a total, transitive (for permutation results: antisymmetric) boolean '
+             'order; discharged for Qle_bool in the *_exact theorems and for Z.leb in the non-vacuity example; f64::max '
+             'is such a max only away from NaN and signed zeros, so for binary64 the component/permutation results are '
+             'tied to the code by the correspondence runs, not by instantiation')
+    ck.assume('an Assertion written without asserted_by is stored with the endpoint key of JSON null, so the '
+              '"anonymous:<id>" arm of eligible is modelled but not reachable through KML (all unattributed claims '
+              'of a side share one actor key)')
     ck.assume('rows reach the projection already decoded; time strings compare bytewise as in the code',
               'hook anda_cognitive_nexus::projection::verif (cfg anda_verif) forwards to the private aggregate/classify')
     binary = ck.cargo('h_nexus')
@@ -46,7 +63,8 @@ def run(ck):
             ck.cov['input_distribution'] = {k: summary[k] for k in ('multisets', 'bridging_multisets', 'sizes', 'statuses')}
             # direct oracle on the implementation: components + every recording order
             for f in summary['failures']:
-                cls = 'order-dependence' if 'order' in f['what'] else 'group-count'
+                cls = ('order-dependence' if 'order' in f['what'] else
+                       'panic' if 'panicked' in f['what'] else 'group-count')
                 ck.violation(cls, f['what'], True, {'failing_input': f})
             ck.ob('implementation: group count = connected components and every recording order agrees '
                   '(%d multisets, %d evaluations)' % (summary['multisets'], summary['evaluations']),
@@ -71,6 +89,59 @@ def run(ck):
             ck.ob('model = implementation on %d cases (score bits, group counts, status)' % len(cases),
                   not bad, 'correspondence', detail)
             if bad and not summary['failures']:
-                # the model and the code disagree but the direct oracle saw nothing: report without a failing input
-                pass
+                # the grouping/order oracles saw nothing (e.g. a classification change): the failing input is the
+                # case on which the implementation leaves the model the theorems are about
+                i = bad[0]
+                ck.violation('model-mismatch', 'aggregate/classify differ from the Coq model on a generated input', True,
+                             {'failing_input': {'case': model_rows[i]['case'], 'observed': model_rows[i]['obs'],
+                                                'detail': detail}})
+        e2e(ck, binary, quick)
     ck.finish()
+
+
+def e2e(ck, binary, quick):
+    """End-to-end: a real CognitiveNexus over InMemory, assertions written through KML in several recording
+    orders, FIND(?b) WHERE { ... ?b BELIEF (?p) } with FOR TIME / WITH EPISTEMIC variants."""
+    out = ck.work + '/c20e2e.jsonl'
+    args = ['c20e2e', '--out', out, '--scenarios', '12' if quick else '150', '--orders', '3' if quick else '4']
+    rc, text = ck.run_harness(binary, args, timeout=3000)
+    if not ck.ob('harness c20e2e ran', rc == 0 and os.path.exists(out), 'correspondence', text[-2000:]):
+        return
+    rows = [json.loads(l) for l in open(out)]
+    summary = [r for r in rows if r['kind'] == 'summary'][-1]
+    model_rows = [r for r in rows if r['kind'] == 'model']
+    ck.count(summary['evaluations'])
+    ck.cov['e2e_distribution'] = {k: summary[k] for k in (
+        'scenarios', 'nexus_instances', 'projections', 'statuses', 'excluded_reasons', 'policies', 'with_rivals',
+        'bridging', 'ledgers_in_id_order', 'features')}
+    for f in summary['failures']:
+        cls = 'e2e-order-dependence' if 'recording order' in f['what'] else 'e2e-oracle-mismatch'
+        ck.violation(cls, f['what'], True, {'failing_input': f})
+    ck.ob('end-to-end (KML writes, KQL BELIEF): every recording order gives the same answer and it equals the '
+          'independent reading (eligibility, components, maxima, score, classification, ledgers) on %d projections '
+          'of %d scenarios' % (summary['projections'], summary['scenarios']),
+          summary['oracle_failures'] == 0 and summary['projections'] > 0, 'correspondence',
+          json.dumps(summary['failures'][:2])[:3500])
+    cases = [{'t': [r['case'], r['obs']]} for r in model_rows]
+    res = ck.eval_cases(IMPORTS, 'ecase * eobs', 'check_e2e', cases, label='e2e')
+    bad = [i for i, r in enumerate(res) if r is not True]
+    for r in model_rows:
+        own, rivals = r['case']['t'][0], r['case']['t'][1]
+        if len(own) + len(rivals) >= 2:
+            ck.nontrivial(('e2e', r['case']['t'][0], r['case']['t'][1], r['case']['t'][2]['t'][:4], r['obs']))
+    for r in model_rows[:2]:
+        ck.sample({'e2e_case': r['case'], 'observed': r['obs']})
+    detail = ''
+    if bad:
+        from coqterm import to_coq
+        i = bad[0]
+        detail = 'projection %d: %s\nobserved: %s\nmodel: %s' % (
+            i, json.dumps(model_rows[i]['case']), json.dumps(model_rows[i]['obs']),
+            ck.eval_term(IMPORTS, 'run_e2e ' + to_coq(model_rows[i]['case'])))
+        if not summary['failures']:
+            # model and engine disagree although the harness-side reading agrees with the engine
+            ck.violation('e2e-model-mismatch', 'Coq model project differs from the engine end-to-end', True,
+                         {'failing_input': {'case': model_rows[i]['case'], 'observed': model_rows[i]['obs'], 'detail': detail}})
+    ck.ob('model project = implementation end-to-end on %d projections (status, score bits, group counts, '
+          'supporting/opposing/uncertain/excluded ledgers as sets)' % len(cases), not bad and len(cases) > 0,
+          'correspondence', detail)
